@@ -66,3 +66,6 @@ const (
 	VerifFinalStream    = int(meta.FinalStream)
 	VerifMetaMaxEncByte = meta.MaxEncBytes
 )
+
+// VerifSetFinalMode sets mw.FinalMode from a plain integer.
+func VerifSetFinalMode(mw *meta.Writer, f int) { mw.FinalMode = meta.FinalMode(f) }
